@@ -239,6 +239,14 @@ package bridgesync
 //@   requires s != nil && s.processor != nil && s.processor.db != nil && s.processor.log != nil
 //@   modifies bsLastBlockScanFaults
 //@   ensures[answered-from-the-store] (!old(s.processor.halted) && result1 == nil) ==> result0 == ite(bsLastBlockRow == -1, 0, bsLastBlockRow)
+// the exit root after a given deposit, as the certificate builder asks for it (C01, C03): the exit tree's root row at
+// exactly that index, or an error - never a neighbouring root
+//@ func (s *BridgeSync) GetExitRootByIndex (s, ctx, index)
+//@   props C01 C03
+//@   requires s != nil && s.processor != nil && s.processor.log != nil && s.processor.exitTree != nil && s.processor.exitTree.Tree != nil
+//@   modifies rootLookupNoRows
+//@   ensures[the-root-recorded-at-that-index] (!old(s.processor.halted) && result1 == nil) ==> result0.Index == index && rootHas(s.processor.exitTree.Tree)[index] && result0.Hash == rootHash(s.processor.exitTree.Tree)[index]
+//@   assert call:GetRootByIndex arg0 == s.processor.exitTree.Tree && arg2 == index
 // the events of a block range as the certificate builder gets them (C02, C03): one read transaction, the range query for
 // exactly the bounds given over the bridge (resp. claim) table; "not found" from the query is an empty answer, any other
 // failure an error. (The row mapping - meddler.ScanAll, SlicePtrsToSlice - is reflection-driven and assumed, A4.)
